@@ -41,6 +41,7 @@ def plan(tier, seed):
                        "lows": [0x00, 0x01, 0x55, 0x80, 0xAA, 0xFE, 0xFF, 0x3C]})
     sh.append({"kind": "sizes"})
     sh.append({"kind": "eq"})
+    sh.append({"kind": "mixed"})
     return sh
 
 
@@ -282,6 +283,77 @@ def eq(res):
     res.sample({"eq_pairs": len(a1) * len(a2), "example": [list(d1[0]), list(d1[70])]})
 
 
+def mixed(seed, res):
+    """All codecs in one process after a history of unrelated frame operations on other widths.
+
+    The property must hold whatever was done with frames before: the same slices are first written
+    on frames of every other width (as other parts of an application would), then every object is
+    written into / read from frames of both sizes, interleaved."""
+    from dali import address, frame
+    from models import addr_ref as R
+    r = rng(seed, "C04", "mixed")
+    for w in list(range(1, 33)) + [64]:
+        f = frame.Frame(w)
+        for hi in range(w):
+            for lo in (range(hi + 1) if w <= 32 else (0, hi // 2, hi)):
+                f[hi:lo] = (1 << (hi - lo + 1)) - 1
+                f[hi:lo] = 0
+            f[hi] = True
+            f[hi] = False
+    res.hit("history_ops", 1)
+    gear, dev, inst = R.all_gear(address), R.all_device(address), R.all_instances(address)
+    jobs = []
+    for _ in range(6000):
+        which = r.choice(["gear", "dev", "inst"])
+        pool = {"gear": gear, "dev": dev, "inst": inst}[which]
+        jobs.append((which, r.randrange(len(pool)), r.getrandbits(16 if which == "gear" else 24)))
+    for which, oi, v in jobs:
+        sub = Result()
+        desc = {"objs": [0, 1], "frames": "sample"}
+        # reuse the per-object oracle on a single (object, frame) pair
+        _one_pair(which, oi, v, sub, address, frame, R)
+        res.evaluations += 1
+        for vio in sub.violations:
+            res.violation(vio["key"] + "/after-history", vio["what"], vio["witness"])
+    res.distinct += len(jobs)
+    res.sample({"mixed": "6000 random (object, frame) pairs of all three codecs in one process after slice writes on widths 1..64"})
+
+
+def _one_pair(which, oi, v, res, address, frame, R):
+    if which == "gear":
+        obj, width = R.all_gear(address)[oi], 16
+    elif which == "dev":
+        obj, width = R.all_device(address)[oi], 24
+    else:
+        obj, width = R.all_instances(address)[oi], 24
+    kind, num = R.describe(obj)
+    f = frame.ForwardFrame(width, v)
+    try:
+        obj.add_to_frame(f)
+    except Exception as e:
+        res.violation(f"C04/add_to_frame/raised/{kind}", f"add_to_frame raised {type(e).__name__}", {"obj": [kind, num], "frame": v})
+        return
+    if which == "gear":
+        expect = v % 512 + R.gear_field(kind, num) * 512
+    elif which == "dev":
+        expect = v % 131072 + R.device_field(kind, num) * 131072
+    else:
+        expect = (v // 65536) * 65536 + R.instance_byte(kind, num) * 256 + v % 256
+    if f.as_integer != expect or len(f) != width:
+        res.violation(f"C04/add_to_frame/bits/{kind}",
+                      f"add_to_frame wrote {f.as_integer:#x}, the standard's layout gives {expect:#x}",
+                      {"obj": [kind, num], "frame": v, "got": f.as_integer, "expect": expect})
+        return
+    back = address.instance_from_frame(f) if which == "inst" else address.from_frame(f)
+    if which == "dev" and (expect // 65536) % 2 == 0:
+        if back is not None:
+            res.violation("C04/from_frame/event-frame-has-address", "event frame yielded an address", {"frame": expect})
+        return
+    if back is None or R.describe(back) != (kind, num) or not (back == obj):
+        res.violation(f"C04/roundtrip/{kind}", f"read back {R.describe(back) if back is not None else None}, wrote {(kind, num)}",
+                      {"obj": [kind, num], "frame": expect})
+
+
 def run_shard(desc, tier, seed):
     res = Result()
     if "replay" in desc:
@@ -315,4 +387,6 @@ def run_shard(desc, tier, seed):
         sizes(res)
     elif k == "eq":
         eq(res)
+    elif k == "mixed":
+        mixed(seed, res)
     return res
